@@ -66,11 +66,11 @@ def _rec_class(name):
                 REFUSE.discard(self.NAME)
                 raise Refused("layer %s refuses this send" % self.NAME)
             Rec.LOG.append(("send", self.NAME, d))
-            self.toLower(d + (self.NAME,))
+            self.toLower(d + (self.NAME,) if isinstance(d, tuple) else d)       # (payloads that are not traces are passed on unchanged)
 
         def receive(self, d):
             Rec.LOG.append(("recv", self.NAME, d))
-            self.toUpper(d + (self.NAME,))
+            self.toUpper(d + (self.NAME,) if isinstance(d, tuple) else d)
 
         def onEvent(self, ev):
             Rec.LOG.append(("event", self.NAME, ev.getName()))
@@ -264,6 +264,16 @@ def h_dataflow(ctx, depth, options):
     st.receive(())
     arrivals = [e[2] + (e[1],) for e in log if e[0] == "recv" and e[1] in names[-1]]
     obs.append(("receive: offered to every member, outputs continue upward, in order", arrivals == ref_up(names)))
+    # payloads are the layers' business, not the stack's: an empty one (an empty frame, a zero, None) travels like any other
+    odd = ctx.choice("payload", ["trace", "empty bytes", "zero", "None"])
+    if odd != "trace":
+        val = {"empty bytes": b"", "zero": 0, "None": None}[odd]
+        del log[:]
+        st.receive(val)
+        obs.append(("receive(%r): reaches every member of the top position as often as a trace does" % (val,), len([e for e in log if e[0] == "recv" and e[1] in names[-1]]) == len(ref_up(names))))
+        del log[:]
+        st.send(val)
+        obs.append(("send(%r): reaches every member of the bottom position as often as a trace does" % (val,), len([e for e in log if e[0] == "send" and e[1] in names[0]]) == len(ref_down(names))))
     # interfaces by class
     for pos in range(depth):
         for n in names[pos]:
